@@ -278,4 +278,10 @@ Section Extract.
                        existsb (Z.eqb (r_cluster r)) labs &&
                        match indices with None => true | Some ix => existsb (Z.eqb w) ix end)
                     (combine (zrange (length tb)) (combine tb iw))).
+
+  (* what load_waveforms returns: (traces[iw], df_wav.loc[iw], channels[iw]) row by row *)
+  Definition load_waveforms (mem : list (option wf)) (tb : list row) (iw : list Z) (cm : list (list Z))
+             (labels indices : option (list Z)) : list (option wf * row * Z * list Z) :=
+    map (fun k => (znth None mem k, znth drow tb k, znth 0 iw k, znth [] cm k))
+        (load_rows tb iw labels indices).
 End Extract.
